@@ -24,7 +24,7 @@ if VERIF not in sys.path:
 
 from bnpsim import core  # noqa: E402
 from bnpsim.core import Violation, Inconclusive, RunCtx  # noqa: E402
-from bnpsim.tape import Tape, rng_for  # noqa: E402
+from bnpsim.tape import Tape, rng_for, FEATURES as TAPE_FEATURES  # noqa: E402
 from bnpsim import findings as KF  # noqa: E402
 from bnpsim.simfs import ProgressBudgetExceeded  # noqa: E402
 
@@ -87,8 +87,8 @@ def execute(mod, tier, tape, excl=True, literal=None):
         return Outcome("error", ctx, reason=f"{type(e).__name__}: {e}", tb=traceback.format_exc())
 
 
-def run_values(mod, tier, values, excl):
-    return execute(mod, tier, Tape(values=values), excl=excl)
+def run_values(mod, tier, values, excl, features=None):
+    return execute(mod, tier, Tape(values=values, features=features), excl=excl)
 
 
 # ---------------------------------------------------------------------------------------------
@@ -163,7 +163,7 @@ def write_replay(prop, tier, seed, index, excl, values, outcome, extra=None, dir
     doc = {
         "property": prop, "tier": tier, "seed": seed, "index": index, "excl": excl,
         "hashseed": os.environ.get("PYTHONHASHSEED", ""),
-        "tape": list(values),
+        "tape": list(values), "tape_features": list(TAPE_FEATURES),
         "violation": {"oracle": v.oracle, "kind": v.kind, "detail": v.detail},
         "scenario": outcome.ctx.scenario,
         "trace": outcome.ctx.trace,
@@ -188,7 +188,7 @@ def replay_file(path):
     if hasattr(mod, "execute") and doc.get("scenario") is not None:
         o = execute(mod, doc.get("tier", "quick"), Tape(values=[]), excl=doc.get("excl", True), literal=doc["scenario"])
     else:
-        o = run_values(mod, doc.get("tier", "quick"), doc["tape"], doc.get("excl", True))
+        o = run_values(mod, doc.get("tier", "quick"), doc["tape"], doc.get("excl", True), features=doc.get("tape_features", []))
     want = (doc["violation"]["oracle"], doc["violation"]["kind"])
     return (o.status == "violation" and o.klass == want), o, doc
 
